@@ -642,7 +642,7 @@ def full_product():
 def tape_plan(tier):
     """[(tape name, bound description, iterator of option dicts)]"""
     if tier == 'quick':
-        return [(t, 2) for t in ('k48', 'k48clear', 'turbo')]
+        return [(t, 2) for t in ('k48', 'k48clear', 'turbo', 'k128')]
     return [('k48', 8), ('turbo', 8), ('k48clear', 2), ('k128', 2)]
 
 
@@ -667,9 +667,9 @@ def tape_work(tier):
             if ref not in members:
                 members = [ref] + members
             if not rest:
-                work.append((tname, ref, []))
+                work.append((tname, ref, [], True))
             for j in range(0, len(rest), 5):
-                work.append((tname, ref, rest[j:j + 5]))
+                work.append((tname, ref, rest[j:j + 5], j == 0))
     return work
 
 
@@ -703,7 +703,7 @@ def check_loaded(t, snap, base):
     return out
 
 
-def run_item(tname, ref_o, others, seed, stats=None):
+def run_item(tname, ref_o, others, seed, stats=None, check_ref=True):
     """Returns list of (options, kind, details)."""
     d = tools.workdir()
     t = build_tape(tname, seed, d)
@@ -727,14 +727,14 @@ def run_item(tname, ref_o, others, seed, stats=None):
         return bad
     ref = base if ref_o == OPT_DEFAULT else load(ref_o)
     todo = list(others)
-    if not others or ref_o == OPT_DEFAULT:
+    if check_ref:
         det = [] if ref is None else check_loaded(t, ref, base)
         if det:
             bad.append((ref_o, 'loaded-data', det))
-    if stats is not None:
-        stats.evaluations += 1
-        stats.traces += 1
-        stats.nontriv((tname, optid(ref_o)))
+        if stats is not None:
+            stats.evaluations += 1
+            stats.traces += 1
+            stats.nontriv((tname, optid(ref_o)))
     for o in todo:
         snap = load(o)
         if stats is not None:
@@ -754,8 +754,8 @@ def run_item(tname, ref_o, others, seed, stats=None):
 
 
 def _tape_shard(stats, shard, nshards, tier, seed):
-    for i, (tname, ref_o, others) in core.shard_iter(tape_work(tier), shard, nshards):
-        for o, kind, det in run_item(tname, ref_o, others, seed, stats):
+    for i, (tname, ref_o, others, first) in core.shard_iter(tape_work(tier), shard, nshards):
+        for o, kind, det in run_item(tname, ref_o, others, seed, stats, first):
             tags = {'level': 'tape', 'tape': tname, 'kind': kind, 'fields': sorted({x.split(': ')[-1].split('=')[0].split(' ')[0] for x in det})}
             tags.update(o)
             stats.violation('tape/{}/{}'.format(tname, optid(o)), {'level': 'tape', 'tape': tname, 'ref': ref_o, 'opts': o, 'seed': seed},
@@ -794,7 +794,7 @@ def run(tier, seed):
                  [t for t, d in tape_plan(tier)], 'deviations d <= 2 from the defaults' if tier == 'quick' else
                  'full product on k48 and turbo, deviations d <= 2 on k48clear and k128'),
         exhaustive=True,
-        bound='loop level: complete product (finite); tape level: ' + ('option deviations d <= 2 on 3 tapes' if tier == 'quick' else
+        bound='loop level: complete product (finite); tape level: ' + ('option deviations d <= 2 on 4 tapes' if tier == 'quick' else
                                                                          'full option product (1280 configurations) on 2 tapes, d <= 2 on 2 more'),
         assumptions=[
             'loops are entered at their first instruction only, with the exit paths (wild-card bytes, RET targets) leading to the stop address - the phase real loaders are in',
@@ -803,7 +803,7 @@ def run(tier, seed):
             'IN r,(C) is traced at loop level (tap2sna does this only with in-flags=4), otherwise the activision row could never fire',
         ],
         required_guards=['acc_' + n for n in sorted(ACCELERATORS)] + ['dec_a_jr', 'dec_a_jp', 'dec_a_interrupt_inside_loop'] +
-                        ['tape_k48', 'tape_k48clear', 'tape_turbo', 'opt_accelerator', 'opt_dec_a', 'opt_pause', 'opt_fast_load', 'opt_cmio',
+                        ['tape_k48', 'tape_k48clear', 'tape_turbo', 'tape_k128', 'opt_accelerator', 'opt_dec_a', 'opt_pause', 'opt_fast_load', 'opt_cmio',
                          'opt_python', 'opt_polarity', 'opt_first_edge'],
     )
     return stats, meta
